@@ -214,8 +214,11 @@ class CycleCheck(Target):
 
     def externs(self, c, st):
         def mk_ref(c, text):
-            return RealDataReference(text) if c.mode != 'sym' else Obj('dataref', stringRepresentation=text)
-        mk = Extern('DataReference', mk_ref)
+            # the real constructor rejects a string without a ':<method>' suffix
+            if ':' not in text:
+                c.raise_(ValueError, "Invalid reference '%s' - missing reference method" % text)
+            return Obj('dataref', stringRepresentation=text)
+        mk = Extern('DataReference', mk_ref, native_passthrough=True)
         mk.CopyOut, mk.Copy = RealDataReference.CopyOut, RealDataReference.Copy
         return {'networkx.find_cycle': st.find_cycle, 'DataReference': mk}
 
